@@ -270,6 +270,14 @@ def ext_corpus(rnd):
          {"o": P, "op": "csv", "dst": "p1", "file": "F3", "chain": [], "kw": {"header": True}}, {"o": P, "op": "collect", "src": "p1"},
          {"o": P, "op": "sqltext", "src": "p0"}]
     out.append(("reader-options-before-unrelated-read", p, h, "before"))
+    # E1b -- ONE reader object kept by P and also used by other work for another file (reads must not leave anything on it)
+    p = [{"o": P, "op": "reader", "dst": "pr0", "chain": [["option", "header", True]]},
+         {"o": P, "op": "csv", "dst": "p0", "file": "F1", "reader": "pr0", "chain": []}, {"o": P, "op": "collect", "src": "p0"},
+         {"o": P, "op": "columns", "src": "p0"}, {"o": P, "op": "sqltext", "src": "p0"}]
+    h = [{"o": H, "op": "csv", "dst": "h0", "file": "F3", "reader": "pr0", "chain": []}, {"o": H, "op": "collect", "src": "h0"},
+         {"o": H, "op": "csv", "dst": "h1", "file": "F3", "reader": "pr0", "chain": [], "kw": {"skip": 1, "header": False}},
+         {"o": H, "op": "count", "src": "h1"}]
+    out.append(("kept-reader-object-used-by-other-work", p, p[:1] + h + p[1:], "given"))
     # E2 -- a view registered from an aliased frame, read through session.table by other work that filters it
     p = [{"o": P, "op": "create", "dst": "p0", "tbl": "T1"}, {"o": P, "op": "alias", "dst": "p1", "src": "p0", "name": "x"},
          {"o": P, "op": "view", "src": "p1", "name": "tv"},
@@ -357,7 +365,7 @@ def _run(ctx: core.Ctx):
     rnd = random.Random(ctx.seed)
     quick = ctx.tier == "quick"
     n_hist = 40 if quick else 400
-    n_solo = 16 if quick else 250
+    n_solo = 14 if quick else 250
 
     # ---- cases -------------------------------------------------------------------------------------------
     cases = []   # dict(kind, p, h, trace)
@@ -399,6 +407,11 @@ def _run(ctx: core.Ctx):
         p, k = G.gen_ext_program(rnd)
         ext_kinds[k] = ext_kinds.get(k, 0) + 1
         cases.append({"kind": "ext-solo:" + k, "mode": "solo", "p": p, "trace": p, "ext": True})
+    try:
+        for tr in json.load(open(os.path.join(core.VERIF, "checks", "c18_corpus.json"))):
+            cases.append({"kind": "solo-corpus", "mode": "solo", "p": tr, "trace": tr})
+    except OSError:
+        pass
     for i in range(n_solo):
         p, _ = G.gen_program(rnd, rnd.randint(3, 10), "P", actions=1)
         cases.append({"kind": "solo", "mode": "solo", "p": p, "trace": p})
@@ -444,7 +457,7 @@ def _run(ctx: core.Ctx):
             ind = G.py_independent(c["trace"])
             mres[i] = "$" + ("same,independent,scoped" if ind else "unknown,dependent,unscoped")
 
-    n_steps_cmp = n_tie_bad = n_engine_err = 0
+    n_steps_cmp = n_tie_bad = n_engine_err = n_captured = 0
     n_hist_cmp = n_same = n_diff_known = n_legit_dep = 0
     n_text_cmp = n_text_uuid = 0
     nontriv = 0
@@ -469,6 +482,12 @@ def _run(ctx: core.Ctx):
             ms = norm_where(ms)
             if is_ == ms:
                 continue
+            if "^" in ms.split("#")[1] and "~J:~" not in ms.split("#")[1] and is_.split("#")[0] == ms.split("#")[0]:
+                # an alias name that equals a column name captured a column identifier (the column becomes a struct named by a
+                # CTE hash -- a defect of another property); how such names are disambiguated in a join is outside the model
+                n_captured += 1
+                outside = True
+                break
             if is_.rsplit("#", 1)[0] == ms.rsplit("#", 1)[0] and is_.endswith("#err") and ms.endswith("#ok"):
                 # the engine rejects the query for a reason outside the model (ambiguous column, ...): nothing more to tie
                 n_engine_err += 1
@@ -613,13 +632,14 @@ def _run(ctx: core.Ctx):
                 "names {x,y,a,v} and view names {v,w}",
         "steps_tied_to_model": n_steps_cmp, "traces_with_engine_error_outside_model": n_engine_err,
         "steps_where_model_and_implementation_differ": n_tie_bad,
+        "traces_left_at_a_join_over_captured_identifiers": n_captured,
         "history_comparisons": n_hist_cmp, "history_same": n_same, "history_differs_known_shape": n_diff_known,
         "history_differs_outside_domain(view last registered by the other work)": n_legit_dep,
         "text_comparisons": n_text_cmp, "text_comparisons_with_uuid_literals": n_text_uuid,
         "catalog_listing_cases": n_tab, "catalog_listing_changed": n_tab_leak,
         "worker_processes": n_proc,
         "histogram_trace_length": dict(sorted(hist_len.items())), "histogram_owner_op": dict(sorted(hist_ops.items())),
-        "histogram_kind": {k: sum(1 for c in cases if c["kind"].split(":")[0] == k) for k in ("corpus", "ext", "random", "random-mirror", "ext-solo", "solo")},
+        "histogram_kind": {k: sum(1 for c in cases if c["kind"].split(":")[0] == k) for k in ("corpus", "ext", "random", "random-mirror", "ext-solo", "solo-corpus", "solo")},
         "histogram_ext_solo_kind": ext_kinds,
     })
     ctx.assumptions += [
